@@ -58,7 +58,17 @@ def run_row(row):
                 if thunk is None:
                     continue
                 try:
-                    got = conv(thunk())
+                    handed = thunk()
+                    got = conv(handed)
+                    # the caller owns the list it was handed (a retry loop uses its delays up): an equal call made
+                    # afterwards must still give the full sequence
+                    if isinstance(handed, list) and handed:
+                        handed.pop(0)
+                        handed.reverse()
+                        handed.append(-1.0)
+                        again = conv(thunk())
+                        if again != got:
+                            bad.append((label + " (second call after the caller changed the first result)", [str(x) for x in again]))
                 except Exception as ex:
                     bad.append((label, "raised:" + core.exc_name(ex)))
                     continue
